@@ -2,7 +2,7 @@
    model gol_rule of Model/Life.v on EVERY neighbourhood (any list of lists of integers).
    Method: both are functions of (centre, total); one case split per `if`, the leaves by lia. *)
 From Coq Require Import ZArith List Bool Lia ZifyBool.
-From CPL Require Import Model.Base Model.Life gen.GenFuns.
+From CPL Require Import Model.Base Model.Life gen.GenFuns_C11.
 Import ListNotations.
 Local Open Scope Z_scope.
 
